@@ -53,9 +53,44 @@ def make_mock(rng, log):
     return MockBackend
 
 
+def _prehistory(rng, s):
+    """Earlier activity on the same Solver (the result of solve() must not depend on it): a find_answer() that leaves an arbitrary
+    model in the sol fields, or an earlier solve() with fewer keys / fewer constraints."""
+    import warnings
+    r = rng.random()
+    with warnings.catch_warnings():
+        warnings.simplefilter("ignore")
+        try:
+            if r < 0.3:
+                core.with_timeout(10, s.find_answer, "z3")
+                return "find_answer"
+            if r < 0.45:
+                core.with_timeout(10, s.solve, "z3")
+                return "solve"
+        except core.RealTimeout:
+            raise
+        except Exception:
+            return "prehistory-exception"
+    return "fresh"
+
+
 def _session(rng):
     s, bools, ints = dslgen.random_session(rng, max_bools=3, max_ints=2, depth=2, nconstraints=(0, 3), dom=(-1, 2))
     allv = list(s.variables)
+    if rng.random() < 0.35 and allv:
+        # two-phase history: solve with some keys first, then promote further variables / add constraints
+        first = [v for v in allv if rng.random() < 0.4]
+        if first:
+            s.add_answer_key(first)
+        _prehistory(rng, s)
+        rest = [v for v in allv if v not in first and rng.random() < 0.6]
+        if rest:
+            s.add_answer_key(rest)
+        if rng.random() < 0.5:
+            dslgen.post(s, dslgen.Gen(rng, s, bools, ints), rng, 2)
+        return s, first + rest
+    if rng.random() < 0.5:
+        s._verif_pre = True
     mode = rng.random()
     if mode < 0.15:
         keys = []
@@ -69,6 +104,8 @@ def _session(rng):
         else:
             for v in keys:
                 s.add_answer_key(v)
+    if getattr(s, "_verif_pre", False):
+        _prehistory(rng, s)
     return s, keys
 
 
@@ -109,9 +146,7 @@ def correspond(ctx):
         answers = sx(["N" if a is None else a for a in log["answers"]])
         lines.append(f"(solve {decls} {keyflags} {answers} " + " ".join(cs) + ")")
         meta.append(("mock", cs, decls, keyflags, real, len(log["answers"])))
-        # z3 route on the same program
-        for v in s.variables:
-            v.sol = None
+        # z3 route on the same program (sol fields keep whatever the mock run left there: solve() must not depend on it)
         with warnings.catch_warnings():
             warnings.simplefilter("ignore")
             try:
@@ -175,8 +210,6 @@ def search(ctx, why):
         decls = [exprio.pdecl(v) for v in s.variables]
         ctx.extra["last_case"] = {"decls": decls, "keys": list(s.is_answer_key), "constraints": cs}
         for tag in ("z3", "mock"):
-            for v in s.variables:
-                v.sol = None
             with warnings.catch_warnings():
                 warnings.simplefilter("ignore")
                 try:
@@ -205,22 +238,35 @@ def search(ctx, why):
 
 
 def replay(ctx, data):
+    """Re-run the stored program under three histories: fresh Solver; find_answer() first; solve() with only the first key, then
+    the remaining keys added."""
     import warnings
-    s = exprio.build_session(data["decls"], data["constraints"], data["keys"])
-    want = _exact(s)
-    for _ in range(20):
-        for v in s.variables:
-            v.sol = None
+    for variant in ("fresh", "find_answer", "two-phase"):
+        keys = list(data["keys"])
+        first = [i for i, k in enumerate(keys) if k][:1]
+        s = exprio.build_session(data["decls"], data["constraints"], keys if variant != "two-phase" else [i in first for i in range(len(keys))])
+        want = _exact(s)
         with warnings.catch_warnings():
             warnings.simplefilter("ignore")
             try:
-                r = core.with_timeout(10, s.solve, "z3") if data["backend"] == "z3" else core.with_timeout(10, s.solve, backend=make_mock(ctx.rng, {"calls": [], "answers": []}))
+                if variant == "find_answer":
+                    core.with_timeout(10, s.find_answer, "z3")
+                elif variant == "two-phase":
+                    core.with_timeout(10, s.solve, "z3")
+                    for i, k in enumerate(keys):
+                        if k and i not in first:
+                            s.add_answer_key(s.variables[i])
+                for _ in range(5):
+                    r = core.with_timeout(10, s.solve, "z3") if data["backend"] == "z3" else \
+                        core.with_timeout(10, s.solve, backend=make_mock(ctx.rng, {"calls": [], "answers": []}))
+                    if r != (want is not None):
+                        return Finding("solve:replay", f"[{variant}] returned {r}", data)
+                    if r:
+                        for i, v in enumerate(s.variables):
+                            if s.is_answer_key[i] and v.sol != want[i]:
+                                return Finding("solve:replay", f"[{variant}] key #{i}: sol={v.sol!r}, exact fact {want[i]!r}", data)
+            except core.RealTimeout:
+                return Finding("solve:replay", f"[{variant}] does not return", data)
             except Exception as e:
-                return Finding("solve:replay", f"raised {core.err_name(e)}", data)
-        if r != (want is not None):
-            return Finding("solve:replay", f"returned {r}", data)
-        if r:
-            for i, v in enumerate(s.variables):
-                if s.is_answer_key[i] and v.sol != want[i]:
-                    return Finding("solve:replay", f"key #{i}: sol={v.sol!r}, exact fact {want[i]!r}", data)
+                return Finding("solve:replay", f"[{variant}] raised {core.err_name(e)}", data)
     return None
